@@ -65,7 +65,13 @@ def one_trace(rng, tid, prop):
         c = rng.random()
         if c < 0.5:
             rows, coefs, shape, names = attr_case(rng)
-            new = rec.do("from_attributes", [], rows=rows, coefs=[[num(x) for x in r] for r in coefs], shape=shape,
+            given = []
+            if rng.random() < 0.3 and rows and all(len(r) == len(rows[0]) for r in rows) and len(coefs) == len(rows):
+                # the caller's own numpy arrays as arguments: they must come back untouched (C17)
+                import numpy
+                given = [rec.new(numpy.array(rows, dtype=rng.choice(["int64", "uint32", "int32"])).reshape(len(rows), len(rows[0])))]
+                given += [rec.new(numpy.array(c, dtype="int64").reshape(shape)) for c in coefs]
+            new = rec.do("from_attributes", given, rows=rows, coefs=[[num(x) for x in r] for r in coefs], shape=shape,
                          names=names, rc=rng.choice(["none", "true", "false"]), rn=rng.choice(["none", "true", "false"]),
                          via=rng.choice(["function", "classmethod", "clean_attributes"]), dtype="int64",
                          names_form=rng.choice(["tuple", "tuple", "list", "string", "omitted", "poly"]))
